@@ -23,6 +23,7 @@ package copyh
 //	SX.n       src.Fetch returned an error
 //	PX.n.r.s   dst.Push (r=0) / PushReference (r=1) returned an error; s=1: the content was stored
 //	TX.n.s     dst.Tag returned an error; s=1: the reference was set
+//	MX.n.s     dst.Mount returned an error of its own; s=1: the blob was stored (mounted / uploaded)
 //	QK / QX    a prologue operation (MapRoot, Predecessors) returned / failed
 //	CN         the context of the call is about to be cancelled
 
@@ -59,7 +60,7 @@ import (
 
 // Fault is one injection point.
 type Fault struct {
-	Op     string `json:"op"`     // exists | fetch | push | tag | pred | pre | post | skip | maproot
+	Op     string `json:"op"`     // exists | fetch | push | tag | mount | pred | pre | post | skip | mountfrom | mounted | maproot
 	Node   int    `json:"node"`   // node id (-1 for maproot)
 	After  bool   `json:"after"`  // after the side effect of the real operation (else before it)
 	Cancel bool   `json:"cancel"` // cancel the context of the call instead of returning an error
@@ -89,6 +90,7 @@ type FCase struct {
 	Faults    []Fault       `json:"faults"`
 	PreCancel bool          `json:"precancel"` // the context is cancelled before the call
 	MapRoot   bool          `json:"maproot"`   // Copy gets an (identity) MapRoot: a prologue fault point
+	Mount     bool          `json:"mount"`     // the destination is a registry.Mounter and MountFrom is set (g, t, x)
 	Sched     bool          `json:"sched"`     // controlled schedule under testing/synctest
 	Slow      []int         `json:"slow"`      // nodes whose operations are slow (free-running) / released last (controlled)
 	Seed      uint64        `json:"seed"`      // latency / schedule PRNG
@@ -234,7 +236,7 @@ func (f *fcall) hit(op string, n int, after bool) bool {
 }
 
 func isCallback(op string) bool {
-	return op == "pre" || op == "post" || op == "skip" || op == "maproot"
+	return op == "pre" || op == "post" || op == "skip" || op == "maproot" || op == "mountfrom" || op == "mounted"
 }
 
 type fsrc struct{ f *fcall; under content.ReadOnlyGraphStorage }
@@ -437,6 +439,63 @@ func (d fdstRef) PushReference(ctx context.Context, t ocispec.Descriptor, rd io.
 	return d.push(ctx, t, rd, ref)
 }
 
+// fdstMount additionally implements registry.Mounter.  The candidate repository either has the
+// blob (PRNG choice: it appears in the destination without any source read) or the content is
+// requested through getContent and uploaded, as remote.Repository does after a 202 answer.
+type fdstMount struct{ *fdst }
+
+func (d fdstMount) Mount(ctx context.Context, t ocispec.Descriptor, fromRepo string, getContent func() (io.ReadCloser, error)) error {
+	f := d.f
+	n := f.node(t)
+	f.ev(fmt.Sprintf("MB.%d", n), 0, 1)
+	f.pause(n)
+	if f.hit("mount", n, false) {
+		f.ev(fmt.Sprintf("MX.%d.0", n), 0, -1)
+		return errFault
+	}
+	f.lmu.Lock()
+	mounted := f.lat.Intn(3) == 0
+	f.lmu.Unlock()
+	if mounted && n >= 0 {
+		if err := f.under.Push(ctx, t, bytes.NewReader(f.g.Nodes[n].Bytes)); err != nil && !errors.Is(err, errdef.ErrAlreadyExists) {
+			f.ev(fmt.Sprintf("MX.%d.0", n), 0, -1)
+			return err
+		}
+		f.monitor(n)
+		f.pause(n)
+		if f.hit("mount", n, true) {
+			f.ev(fmt.Sprintf("MX.%d.1", n), 0, -1)
+			return errFault
+		}
+		f.ev(fmt.Sprintf("ME.%d.m", n), 0, -1)
+		return nil
+	}
+	rc, err := getContent()
+	if err != nil {
+		if err.Error() == "skip source" {
+			f.ev(fmt.Sprintf("ME.%d.s", n), 0, -1) // not the last candidate: try the next one
+		} else {
+			f.ev("", 0, -1) // the failing PreCopy (CF) / src.Fetch (SX) was recorded: the task is dead for the model
+		}
+		return fmt.Errorf("cannot read source blob: %w", err)
+	}
+	err = f.under.Push(ctx, t, rc)
+	rc.Close()
+	if err != nil && !errors.Is(err, errdef.ErrAlreadyExists) {
+		f.pause(n)
+		f.ev(fmt.Sprintf("MX.%d.0", n), 0, -1)
+		return err
+	}
+	f.monitor(n)
+	f.pause(n)
+	if f.hit("mount", n, true) {
+		f.ev(fmt.Sprintf("MX.%d.1", n), 0, -1)
+		return errFault
+	}
+	f.ev(fmt.Sprintf("ME.%d.c", n), 0, -1)
+	return nil
+}
+
 // FCall is what one call (first run or rerun) showed.
 type FCall struct {
 	Toks    []string
@@ -588,6 +647,27 @@ func runCall(c *FCase, g *dag.Graph, src, dst oras.Target, faults []Fault, preCa
 		}
 	}
 	gopts := oras.CopyGraphOptions{Concurrency: c.K, PreCopy: cb("pre"), PostCopy: cb("post"), OnCopySkipped: cb("skip")}
+	if c.Mount {
+		gopts.OnMounted = cb("mounted")
+		gopts.MountFrom = func(_ context.Context, d ocispec.Descriptor) ([]string, error) {
+			n := f.node(d)
+			if f.hit("mountfrom", n, false) {
+				f.ev(fmt.Sprintf("CF.mountfrom.%d", n), 0, 0)
+				f.pause(n)
+				return nil, errFault
+			}
+			f.ev(fmt.Sprintf("CB.mountfrom.%d", n), 0, 0)
+			f.pause(n)
+			f.lmu.Lock()
+			k := f.lat.Intn(4)
+			f.lmu.Unlock()
+			return []string{"repo/a", "repo/b", "repo/c"}[:k], nil
+		}
+	}
+	var gdst content.Storage = dw
+	if c.Mount {
+		gdst = fdstMount{dw}
+	}
 	call := &FCall{TagNode: -1}
 	do := func() {
 		c0, cf := context.WithCancel(context.Background())
@@ -601,9 +681,9 @@ func runCall(c *FCase, g *dag.Graph, src, dst oras.Target, faults []Fault, preCa
 		}
 		switch c.API {
 		case "g":
-			call.Err = oras.CopyGraph(ctx, sw, dw, g.Nodes[c.Root].Desc, gopts)
+			call.Err = oras.CopyGraph(ctx, sw, gdst, g.Nodes[c.Root].Desc, gopts)
 		case "x":
-			call.Err = oras.ExtendedCopyGraph(ctx, sw, dw, g.Nodes[c.Root].Desc, oras.ExtendedCopyGraphOptions{CopyGraphOptions: gopts})
+			call.Err = oras.ExtendedCopyGraph(ctx, sw, gdst, g.Nodes[c.Root].Desc, oras.ExtendedCopyGraphOptions{CopyGraphOptions: gopts})
 		default:
 			opts := oras.CopyOptions{CopyGraphOptions: gopts}
 			if c.MapRoot {
@@ -620,6 +700,8 @@ func runCall(c *FCase, g *dag.Graph, src, dst oras.Target, faults []Fault, preCa
 			var d oras.Target = dw
 			if c.API == "r" {
 				d = fdstRef{dw}
+			} else if c.Mount {
+				d = fdstMount{dw}
 			}
 			_, call.Err = oras.Copy(ctx, fsrcT{sw, src}, fSrcRef, d, fDstRef, opts)
 		}
@@ -748,7 +830,11 @@ func fModelInput(c *FCase, g *dag.Graph, roots []int, d0 []int, toks []string, r
 	}
 	d := append([]int(nil), d0...)
 	sort.Ints(d)
-	return fmt.Sprintf("%d %d %s %s %s %s %s %s", len(g.Nodes), c.K, c.API, ints(roots), strings.Join(nodes, ";"), ints(d), tr, rp)
+	api := c.API
+	if c.Mount {
+		api += "m"
+	}
+	return fmt.Sprintf("%d %d %s %s %s %s %s %s", len(g.Nodes), c.K, api, ints(roots), strings.Join(nodes, ";"), ints(d), tr, rp)
 }
 
 func presentList(p []bool) []int {
@@ -960,6 +1046,9 @@ func GenerateF(genseed uint64, stream string, thorough bool) *FCase {
 		c.MapRoot = true
 	}
 	c.Sched = stream == "sched" || stream == "schedshared"
+	if c.API != "r" && r.Chance(1, 4) {
+		c.Mount = true
+	}
 
 	roots := FRoots(c, g)
 	reach := map[int]bool{}
@@ -994,6 +1083,9 @@ func GenerateF(genseed uint64, stream string, thorough bool) *FCase {
 		}
 		if c.API == "t" && r.Chance(1, 6) {
 			ft.Op, ft.Node = "tag", c.Root
+		}
+		if c.Mount && ft.Node >= 0 && !g.Nodes[ft.Node].IsManifest() && r.Chance(3, 4) {
+			ft.Op = common.Pick(r, []string{"mount", "mount", "mountfrom", "mounted", "pre", "fetch"})
 		}
 		if set[ft.Node] && (ft.Op == "push" || ft.Op == "fetch" || ft.Op == "pre" || ft.Op == "post") && r.Chance(2, 3) {
 			ft.Op = common.Pick(r, []string{"exists", "skip"})
@@ -1105,6 +1197,17 @@ func allPlacements(c *FCase, g *dag.Graph) []Fault {
 			}
 		}
 	}
+	if c.Mount {
+		for _, n := range rl {
+			if g.Nodes[n].IsManifest() {
+				continue
+			}
+			for _, cn := range []bool{false, true} {
+				out = append(out, Fault{Op: "mount", Node: n, Cancel: cn}, Fault{Op: "mount", Node: n, After: true, Cancel: cn},
+					Fault{Op: "mountfrom", Node: n, Cancel: cn}, Fault{Op: "mounted", Node: n, Cancel: cn})
+			}
+		}
+	}
 	return out
 }
 
@@ -1204,14 +1307,17 @@ func DriveF(run *common.Run, b FBudget) {
 			fails++
 			run.OracleFail(id, sig, msg, rp)
 		}
-		desc := fmt.Sprintf("api=%s root=%d roots=%v K=%d %s->%s d0=%v faults=%v precancel=%v slow=%v sched=%v graph=%v",
-			c.API, c.Root, res.Roots, c.K, c.Src, c.Dst, c.D0, c.Faults, c.PreCancel, c.Slow, c.Sched, g.Describe())
+		desc := fmt.Sprintf("mounter=%v api=%s root=%d roots=%v K=%d %s->%s d0=%v faults=%v precancel=%v slow=%v sched=%v graph=%v",
+			c.Mount, c.API, c.Root, res.Roots, c.K, c.Src, c.Dst, c.D0, c.Faults, c.PreCancel, c.Slow, c.Sched, g.Describe())
 		run.Count("stream=" + c.Stream)
 		run.Count("api=" + c.API)
 		run.Count("pair=" + c.Src + "->" + c.Dst)
 		run.Count("K=" + strconv.Itoa(c.K))
 		if c.Sched && T != nil {
 			run.Count("controlled-schedule(synctest)")
+		}
+		if c.Mount {
+			run.Count("dst-mounter")
 		}
 		if c.PreCancel {
 			run.Count("pre-cancelled-context")
